@@ -40,6 +40,51 @@ inductive GoVal
   | udtstruct (names : List String) (vs : List GoVal)               -- struct with `cql:"name"` tags
 deriving Repr, BEq
 
+/- structural equality of Go values, written out: the derived `BEq` above is an OPAQUE constant for a nested inductive
+   (nothing can be proved about it).  Declared AFTER the derived instance, this one is what every later `==` on `GoVal`
+   elaborates to (unmarshalMap's key comparison `mapInsert`, the derived `BEq` of `MRes` / `URes`); same function, but the
+   kernel can unfold it: `Proofs/C02Nested.lean` discharges the distinct-keys hypothesis of the map round trip with it. -/
+mutual
+def GoVal.beqV : GoVal → GoVal → Bool
+  | .nil, .nil => true
+  | .unset, .unset => true
+  | .int k n v, .int k' n' v' => decide (k = k') && n == n' && decide (v = v')
+  | .str n s, .str n' s' => n == n' && s == s'
+  | .bytes n i b, .bytes n' i' b' => n == n' && i == i' && b == b'
+  | .bool n b, .bool n' b' => n == n' && b == b'
+  | .f32 n x, .f32 n' x' => n == n' && x == x'
+  | .f64 n x, .f64 n' x' => n == n' && x == x'
+  | .big v, .big v' => decide (v = v')
+  | .dec u s, .dec u' s' => decide (u = u') && decide (s = s')
+  | .time a b, .time a' b' => decide (a = a') && decide (b = b')
+  | .dur a, .dur a' => decide (a = a')
+  | .cqldur a b c, .cqldur a' b' c' => decide (a = a') && decide (b = b') && decide (c = c')
+  | .uuid b, .uuid b' => b == b'
+  | .arr16 b, .arr16 b' => b == b'
+  | .ip b, .ip b' => b == b'
+  | .ptr v, .ptr v' => GoVal.beqV v v'
+  | .nilptr, .nilptr => true
+  | .slice i vs, .slice i' vs' => i == i' && GoVal.beqVs vs vs'
+  | .array vs, .array vs' => GoVal.beqVs vs vs'
+  | .ifaces vs, .ifaces vs' => GoVal.beqVs vs vs'
+  | .map i kvs, .map i' kvs' => i == i' && GoVal.beqKVs kvs kvs'
+  | .mapset ks, .mapset ks' => GoVal.beqVs ks ks'
+  | .struct vs, .struct vs' => GoVal.beqVs vs vs'
+  | .udtmap i ns vs, .udtmap i' ns' vs' => i == i' && ns == ns' && GoVal.beqVs vs vs'
+  | .udtstruct ns vs, .udtstruct ns' vs' => ns == ns' && GoVal.beqVs vs vs'
+  | _, _ => false
+def GoVal.beqVs : List GoVal → List GoVal → Bool
+  | [], [] => true
+  | a :: as, b :: bs => GoVal.beqV a b && GoVal.beqVs as bs
+  | _, _ => false
+def GoVal.beqKVs : List (GoVal × GoVal) → List (GoVal × GoVal) → Bool
+  | [], [] => true
+  | (a, b) :: r, (a', b') :: r' => GoVal.beqV a a' && GoVal.beqV b b' && GoVal.beqKVs r r'
+  | _, _ => false
+end
+
+instance : BEq GoVal := ⟨GoVal.beqV⟩
+
 inductive GoTy
   | int (k : IntKind) (named : Bool)
   | str (named : Bool) | bytes (named : Bool) | bool (named : Bool) | f32 (named : Bool) | f64 (named : Bool)
